@@ -128,7 +128,7 @@ Definition max_ok (mx : Z) : Prop := mx = 0 \/ 8 <= mx < two64.
 (* a message the decoder is configured to accept: 1..513 segments (the code compares
    maxSeg > 512), whole-word segments, framed size within MaxMessageSize *)
 Definition frame_ok (mx : Z) (m : list (list Z)) : Prop :=
-  1 <= len m <= max_stream_segments + 1 /\ segs_ok m /\ len (frame m) <= eff_max mx.
+  1 <= len m <= max_stream_segments /\ segs_ok m /\ len (frame m) <= eff_max mx.
 
 Lemma eff_max_range mx : max_ok mx -> 8 <= eff_max mx < two64.
 Proof. unfold max_ok, eff_max, default_decode_limit, two64. intros [->|H]; [cbn; lia|]. destruct (mx =? 0) eqn:E; lia. Qed.
@@ -181,7 +181,7 @@ Lemma decode_body_ok m cs fin hc bc ru mx rest log :
 Proof.
   intros Hmx Hok Hcs. destruct (frame_ok_facts mx m Hmx Hok) as [Hc [H32 [H8 [HH [HL [Hs0 HsB]]]]]].
   pose proof (eff_max_range mx Hmx) as Hr. destruct Hok as [_ [Hsegs _]].
-  unfold decode_body. rewrite total_size_frame_header by assumption.
+  unfold decode_body, gdecode_body. rewrite total_size_frame_header by assumption.
   rewrite wrap64_small by lia.
   destruct ((sum_len m >? eff_max mx - len (frame_header m)) || (sum_len m >? max_int)) eqn:E;
     [unfold max_int, max_segment_size, two32 in *; lia|].
@@ -219,7 +219,7 @@ Lemma decode_body_short m cs fin hc bc ru mx log :
 Proof.
   intros Hmx Hok Hcs. destruct (frame_ok_facts mx m Hmx Hok) as [Hc [H32 [H8 [HH [HL [Hs0 HsB]]]]]].
   pose proof (eff_max_range mx Hmx) as Hr. destruct Hok as [_ [Hsegs _]].
-  unfold decode_body. rewrite total_size_frame_header by assumption.
+  unfold decode_body, gdecode_body. rewrite total_size_frame_header by assumption.
   rewrite wrap64_small by lia.
   destruct ((sum_len m >? eff_max mx - len (frame_header m)) || (sum_len m >? max_int)) eqn:E;
     [unfold max_int, max_segment_size, two32 in *; lia|].
@@ -261,7 +261,7 @@ Proof.
     assert (Hl : length (firstn (Z.to_nat H) s) = length (frame_header m)).
     { rewrite firstn_length. unfold H, len in *. lia. }
     symmetry. exact (app_eq_len _ _ _ _ Hpre (eq_sym Hl)). }
-  unfold decode1. cbn [d_max d_rd].
+  unfold decode1, decode1_gen, gdecode1_gen. cbn [d_max d_rd].
   replace (negb (mx =? 0) && (mx <? word_size)) with false
     by (unfold max_ok, word_size in *; destruct (mx =? 0) eqn:E; cbn; lia).
   change (if mx =? 0 then default_decode_limit else mx) with (eff_max mx).
@@ -277,7 +277,7 @@ Proof.
     rewrite le32_get_firstn by (unfold H, len in *; lia).
     rewrite <- (app_nil_r (frame_header m)). now apply max_segment_frame_header. }
   rewrite Hw.
-  destruct (len m - 1 >? max_stream_segments) eqn:E1; [destruct Hok; unfold max_stream_segments in *; lia|].
+  destruct (len m - 1 + 1 >? seg_count_limit true) eqn:E1; [destruct Hok; unfold seg_count_limit, max_stream_segments in *; lia|].
   destruct (len m - 1 =? 0) eqn:E2.
   - (* one segment: the first word is the whole header *)
     assert (H8eq : Z.to_nat H = Z.to_nat word_size).
@@ -332,7 +332,7 @@ Proof.
   set (H := len (frame_header m)) in *.
   destruct (Z_lt_ge_dec (len q) H) as [Hsh|Hlong].
   - (* cut inside the header *)
-    unfold decode1. cbn [d_max d_rd].
+    unfold decode1, decode1_gen, gdecode1_gen. cbn [d_max d_rd].
     replace (negb (mx =? 0) && (mx <? word_size)) with false
       by (unfold max_ok, word_size in *; destruct (mx =? 0) eqn:E; cbn; lia).
     change (if mx =? 0 then default_decode_limit else mx) with (eff_max mx).
@@ -345,7 +345,7 @@ Proof.
         as [cs1 [Er Hc1]]. cbn [r_chunks r_final] in *. rewrite Er, Hcs.
       unfold with_rd. cbn [d_rd d_hdrcap d_bufcap d_reuse d_max].
       rewrite (first_word_count m q tail H32 ltac:(lia) Hf).
-      destruct (len m - 1 >? max_stream_segments) eqn:E1; [destruct Hok; unfold max_stream_segments in *; lia|].
+      destruct (len m - 1 + 1 >? seg_count_limit true) eqn:E1; [destruct Hok; unfold seg_count_limit, max_stream_segments in *; lia|].
       destruct (len m - 1 =? 0) eqn:E2.
       { exfalso. assert (H = 8) by (rewrite HH; replace (len m - 1) with 0 by lia; reflexivity). lia. }
       rewrite <- HH. fold H.
@@ -373,7 +373,7 @@ Lemma decode1_eof cs hc bc ru mx : max_ok mx -> concat cs = [] ->
   exists cs', decode1 (mkD (mkReader cs EOF) hc bc ru mx) = (mkD (mkReader cs' EOF) hc bc ru mx, DEof, [])
               /\ concat cs' = [].
 Proof.
-  intros Hmx Hcs. unfold decode1. cbn [d_max d_rd].
+  intros Hmx Hcs. unfold decode1, decode1_gen, gdecode1_gen. cbn [d_max d_rd].
   replace (negb (mx =? 0) && (mx <? word_size)) with false
     by (unfold max_ok, word_size in *; destruct (mx =? 0) eqn:E; cbn; lia).
   destruct (read_full_short (mkReader cs EOF) word_size ltac:(cbn [r_chunks]; rewrite Hcs; unfold word_size; cbn; lia))
